@@ -40,7 +40,7 @@ func vMem(v int64) *resources.Resource {
 func VerifC05_LimitSurvivesDrain() {
 	vPanics(false)
 	vUnwind(40)
-	m := newManager()
+	m = newManager() // the trackers consult the package-level manager
 	conf, hasRes, lim, maxApps := vLimitConf("c")
 	vSplit("c.hasres")
 	err := m.UpdateConfig(conf, "root")
@@ -72,7 +72,7 @@ func VerifC05_LimitSurvivesDrain() {
 func VerifC05_UsageAndHeadroom() {
 	vPanics(false)
 	vUnwind(40)
-	m := newManager()
+	m = newManager() // the trackers consult the package-level manager
 	conf, hasRes, lim, _ := vLimitConf("c")
 	vAssume(hasRes)
 	err := m.UpdateConfig(conf, "root")
